@@ -16,11 +16,7 @@ Theorem c09_total :
     (forall l, 1 <= llen l) ->
     forall (lines : list L) (tail : Z) (sch : list Z),
     exists r s, drive L llen PS init_ps recog bump lineno lines tail sch = Ret (r, s).
-Proof.
-  intros L llen PS init_ps recog bump lineno Hl lines tail sch.
-  destruct (drive_fin L llen PS init_ps recog bump lineno Hl lines tail sch) as [r [s [H _]]].
-  exists r, s. exact H.
-Qed.
+Proof. exact total_thm. Qed.
 Print Assumptions c09_total.
 
 (* The same for byte strings and the byte-level model of the line parsers: every byte string
@@ -43,12 +39,7 @@ Theorem c09_bounded_window :
     iter_pos L llen PS recog bump lineno p (init_st L llen PS init_ps lines tail sch) = Next s ->
     In (b_cap (buf s)) [10240; 20480; 40960; 81920; 163840] /\
     0 <= avail (buf s) <= b_cap (buf s) /\ b_cap (buf s) <= MAX_CAP /\ 0 <= maxsp s <= MAX_CAP.
-Proof.
-  intros L llen PS init_ps recog bump lineno Hl lines tail sch p s H.
-  pose proof (reach_wf' L llen PS init_ps recog bump lineno Hl lines tail sch p s H) as W.
-  destruct (wfm_window L llen PS init_ps recog bump lineno lines tail s (wf_m _ _ _ _ _ _ _ _ _ _ _ W)) as [C R].
-  split; [|exact R]. unfold caps in C. cbn [In]. intuition.
-Qed.
+Proof. exact bounded_window_thm. Qed.
 Print Assumptions c09_bounded_window.
 
 (* ... and also in the state the run ends in. *)
@@ -59,13 +50,7 @@ Theorem c09_bounded_window_final :
     forall (lines : list L) (tail : Z) (sch : list Z) r s,
     drive L llen PS init_ps recog bump lineno lines tail sch = Ret (r, s) ->
     In (b_cap (buf s)) [10240; 20480; 40960; 81920; 163840] /\ 0 <= maxsp s <= MAX_CAP.
-Proof.
-  intros L llen PS init_ps recog bump lineno Hl lines tail sch r s H.
-  destruct (drive_fin L llen PS init_ps recog bump lineno Hl lines tail sch) as [r' [s' [H1 [W _]]]].
-  rewrite H in H1. inversion H1; subst.
-  destruct (wfm_window L llen PS init_ps recog bump lineno lines tail s' W) as [C [_ [_ R]]].
-  split; [|exact R]. unfold caps in C. cbn [In]. intuition.
-Qed.
+Proof. exact bounded_window_final_thm. Qed.
 Print Assumptions c09_bounded_window_final.
 
 (* Over-long lines.  Whatever the input and the schedule, the run disposes of the lines in
@@ -95,10 +80,7 @@ Theorem c09_long_line_dropped :
               recog p1 l = inr c /\ ln = lineno p1 /\ llen l <= MAX_CAP)
           \/ (c = 3 /\ ln = 0) \/ (c = 4 /\ ln = lineno (ps s))
       end.
-Proof.
-  intros L llen PS init_ps recog bump lineno Hl lines tail sch r s H.
-  exact (drive_shape L llen PS init_ps recog bump lineno Hl lines tail sch r s H).
-Qed.
+Proof. exact drive_shape. Qed.
 Print Assumptions c09_long_line_dropped.
 
 (* non-vacuity: a 200000-byte line between valid records is dropped, the parse succeeds and
